@@ -24,6 +24,8 @@ STRENGTHENED = {
     "C02-agent2-1": "MISSED at first by the C02 check (the C01 check reported it as bad_model); C02 now also reports a returned non-model (`answer_is_not_a_model`): what came back is not 'a model'",
     "C02-agent2-3": "would have been MISSED (every clause was passed as its own fresh list); caught after equal clauses are passed as one shared list object / as tuples and repeated clauses were generated",
     "C17-agent2-3": "would have been MISSED (every custom universe contained the unit columns); caught after the slice of column pools that cannot produce a demanded item was added (on the clean tree solve_cg raises OverflowError there, which presents no plan and is counted as a probe)",
+    "C04-agent2-3": "caught as the check stood, because a worker interpreter executes hundreds of cases and the stale memo of one case leaked into a later one; the single-case replay could not reproduce it, which led to the block-prefix replay mode (the replay re-executes the preceding runs of the block)",
+    "C09-agent2-2": "caught, but the first evaluation ran for many minutes because every hit burns a 1.5 M event step budget; workers now stop a block after 12 violating runs and the master stops dispatching after 60",
     "C17-agent-3": "MISSED at first (only integer roll widths were generated); caught after fractional roll widths were added",
 }
 WHAT = {}
